@@ -345,7 +345,7 @@ Proof.
   - intros H. repeat match goal with H : (_ && _)%bool = true |- _ => apply andb_prop in H; destruct H end.
     repeat match goal with X : String.eqb _ _ = true |- _ => apply String.eqb_eq in X | X : Bool.eqb _ _ = true |- _ => apply Bool.eqb_prop in X end.
     destruct a, b; simpl in *; subst; auto.
-  - intros ->. rewrite !String.eqb_refl, Bool.eqb_reflx. auto.
+  - intros ->. rewrite !String.eqb_refl, !Bool.eqb_reflx. auto.
 Qed.
 Lemma skey_eqb_refl a : skey_eqb a a = true.
 Proof. apply skey_eqb_eq; auto. Qed.
